@@ -73,7 +73,7 @@ def main() -> int:
     from hypothesis import HealthCheck, given, settings
 
     @settings(database=None, deadline=None, suppress_health_check=list(HealthCheck), verbosity=hypothesis.Verbosity.quiet)
-    @given(mod.strategy(a.tier))
+    @given(runner.with_debug(mod.strategy(a.tier)))
     def prop(case):
         try:
             v = runner.evaluate(mod, case, known, stats, "fuzz")
